@@ -28,7 +28,7 @@ class C09(core.Check):
                    '("every whole-word occurrence"), probed only where the replaced text is made of word characters, operators and single blanks',
                    'an unused cyclic definition is DONT_CARE')
     chunk = 800
-    required_buckets = {b: 3 for b in ['symbol-names-the-label-or-constant-a-line-defines',
+    required_buckets = {b: 3 for b in ['symbol-names-the-label-or-constant-a-line-defines', 'source:cli/blank-around-equals', 'replacement-text-with-a-quoted-semicolon',
         'adjacent:prefix', 'adjacent:suffix', 'adjacent:infix', 'chain:2', 'chain:3', 'chain:4', 'diamond', 'cycle:1',
         'cycle:2', 'cycle:3', 'cycle:4', 'use-before-define', 'double:isa+isa', 'double:isa+cli', 'double:isa+define',
         'double:cli+cli', 'double:cli+define', 'double:define+define', 'expands-to:register', 'expands-to:label',
@@ -350,7 +350,11 @@ class C09(core.Check):
         fn, text = isamod.render_isa(isa, 'yaml' if rng.random() < 0.1 else 'json')
         argv = ['compile', '-c', fn, 'p.asm', '-o', 'out.bin']
         for n, t in cli:
-            argv += ['-D', f'{n}={t}' if t != '' else n]
+            # blanks around the = of a command-line definition belong neither to the name nor to the text
+            form = rng.choice(['{n}={t}', '{n}={t}', '{n} = {t}', '{n} ={t}', '{n}= {t}'])
+            if ' ' in form and t != '':
+                tags.add('source:cli/blank-around-equals')
+            argv += ['-D', form.format(n=n, t=t) if t != '' else n]
         tags.add('expect:' + kind)
         tags.discard('diamond-candidate')
         return {'runs': [{'files': {fn: text, 'p.asm': '\n'.join(out) + '\n'}, 'argv': argv, 'probes': ['steps', 'subst'],
@@ -383,6 +387,12 @@ class C09(core.Check):
                 (['KNAME_Q = 7', '.byte k_val'], '07', [], [('KNAME_Q', 'k_val')]),
                 (['#define FILE_Q _priv', 'FILE_Q: .byte 1', '.2byte _priv + 2'], '010002', [], []),
                 (['host_q:', '#define LOC_Q .inner', '.byte 5', 'LOC_Q: .byte 1', '.2byte .inner'], '05010001', [], []),
+                # a replacement text is the text behind the name up to the comment: a ; inside quotes belongs to it
+                (['#define SEP_Q \';\'', '.byte SEP_Q, 1'], '3b01', [], []),
+                (['#define MSG_Q "go; stop"', '.cstr MSG_Q'], b'go; stop\0'.hex(), [], []),
+                (['#define SEP_Q \';\' ; the separator', '.byte SEP_Q'], '3b', [], []),
+                (['#define MSG_Q "a;b" ; two; comments', '.byte MSG_Q'], '613b62', [], []),
+                (['#define PAIR_Q \';\', \';\'', '.byte PAIR_Q'], '3b3b', [], []),
                 # control: a name that merely contains the symbol's name stays as written
                 (['#define ENTRY_Q start_here', 'ENTRY_Q2: .byte 1', '.2byte ENTRY_Q2'], '010000', [], [])]):
             isa_k = json.loads(json.dumps(isa))
@@ -394,7 +404,8 @@ class C09(core.Check):
                 argv += ['-D', f'{n}={t}']
             yield {'runs': [{'files': {fn: text, 'p.asm': '\n'.join(src) + '\n'}, 'argv': argv, 'probes': ['steps', 'subst'], 'step_limit': 400000}],
                    'meta': {'kind': 'ACCEPT', 'why': None, 'probes': [{'addr': 0, 'bytes': image, 'text': src[-1], 'line': len(src)}]},
-                   'tags': ['expect:ACCEPT', 'symbol-names-the-label-or-constant-a-line-defines', 'source:' + ('cli' if cli else 'isa' if cfg else 'define')]}
+                   'tags': ['expect:ACCEPT', 'replacement-text-with-a-quoted-semicolon' if any(';' in l_ and l_.startswith('#define') for l_ in src)
+                            else 'symbol-names-the-label-or-constant-a-line-defines', 'source:' + ('cli' if cli else 'isa' if cfg else 'define')]}
 
     def judge(self, case, outcomes):
         o = outcomes[0]
